@@ -149,6 +149,7 @@ func C12(p *load.Prog, r *report.Report) {
 		return
 	}
 	fieldArith(p, r, m, "C12")
+	siblingChecks(p, r, "C12")
 	// chains
 	if fn := p.Method(p.Field, "Element", "Invert"); fn != nil {
 		chainExponent(p, r, m, "C12", "field.Element.Invert", fn, FP, func(it *absint.Interp, alpha *absint.Poly) ([]absint.Value, func() *absint.Cell) {
@@ -201,6 +202,49 @@ func C12(p *load.Prog, r *report.Report) {
 				}
 			}
 			r.Check(good, "C12.sqrt_ratio", "field.Element.SqrtRatio", p.Pos(fn.Pos()), "= sqrt_ratio_3mod4 of RFC 9380 F.2.1.2 on symbolic (u, v)", "differs from RFC 9380 F.2.1.2")
+		}
+	}
+	// SqrtRatio under aliasing of receiver and arguments
+	if fn := p.Method(p.Field, "Element", "SqrtRatio"); fn != nil {
+		for _, pat := range []string{"receiver is u", "receiver is v", "u and v are the same", "all the same"} {
+			construct := "field.Element.SqrtRatio (" + pat + ")"
+			uu, vv := u, v
+			if pat == "u and v are the same" || pat == "all the same" {
+				vv = u
+			}
+			if res := runStraight(p, r, "C12.sqrt_ratio", construct, fn, func(it *absint.Interp) []absint.Value {
+				uo := m.newFE(it, "u", u)
+				vo := uo
+				if vv != u {
+					vo = m.newFE(it, "v", v)
+				}
+				var eo *absint.Object
+				switch pat {
+				case "receiver is u", "all the same":
+					eo = uo
+				case "receiver is v":
+					eo = vo
+				default:
+					eo = m.newFE(it, "out", pInt(FP, 0))
+				}
+				return []absint.Value{ptr(eo), ptr(uo), ptr(vo)}
+			}); res != nil {
+				good := false
+				if tup, ok := res.Ret.(absint.Tuple); ok && len(tup) == 2 {
+					var got *absint.Poly
+					if pr, ok := tup[0].(absint.Ptr); ok {
+						got, _ = res.It.ReadMont(FP, m.limbCell(pr.C))
+					}
+					flag, fok := retTerm(res.It, tup[1])
+					for _, c2 := range roots {
+						wy, wq := specSqrtRatio(uu, vv, c2)
+						if got != nil && fok && got.Equal(wy) && flag.Equal(wq) {
+							good = true
+						}
+					}
+				}
+				r.Check(good, "C12.sqrt_ratio", construct, p.Pos(fn.Pos()), "= sqrt_ratio_3mod4 also when operands share storage", "the result is wrong when the receiver or the operands share storage (an operand is overwritten before its last use)")
+			}
 		}
 	}
 	a, b := absint.FieldSym(FP, "a"), absint.FieldSym(FP, "b")
